@@ -278,6 +278,20 @@ func r12_1(c *RC) {
 			}
 		})
 	}
+	// ... and it is the filter that is handed out on every path: a nil filter
+	// means "relay everything" to the association loops
+	instrs(uf, func(_ *ssa.BasicBlock, _ int, in ssa.Instruction) {
+		r, ok := in.(*ssa.Return)
+		if !ok || len(r.Results) != 1 {
+			return
+		}
+		for _, l := range Leaves(retVal(r, 0), nil) {
+			if _, isClosure := l.(*ssa.MakeClosure); !isClosure {
+				good = false
+				c.Bad("filter-always-installed", r.Pos(), "udpDestinationFilter can return %s instead of the per-user filter: for those users every datagram of the association is relayed without the loopback/private-address check (the two permissions are independent: holding one does not grant the other)", describe(l))
+			}
+		}
+	})
 	if good {
 		c.OKH("filter-body", uf.Pos(), "the filter calls isDestinationAllowed(datagram address, UserContext.UserName())")
 	} else {
